@@ -19,7 +19,7 @@ import (
 // (DESIGN.md §6 C15). Seam invariant, checked on every call.
 
 // /ab/t.jet vs /a/b/t.jet: directory + name concatenate to the same string without a separator
-var c15Targets = []string{"/t.jet", "/a/t.jet", "/a/b/t.jet", "/a/b/c/t.jet", "/lib.jet", "/a/lib.jet", "/a/b/lib.jet", "/ab/t.jet", "/a/bc/t.jet", "/zz.jet"}
+var c15Targets = []string{"/t.jet", "/.dot/t.jet", "/a/t.jet", "/a/b/t.jet", "/a/b/c/t.jet", "/lib.jet", "/a/lib.jet", "/a/b/lib.jet", "/ab/t.jet", "/a/bc/t.jet", "/zz.jet"}
 var c15RefDirs = []string{"/", "/a", "/a/b", "/a/b/c"}
 
 const canary = "CANARY-SECRET-OUTSIDE-ROOT"
@@ -348,6 +348,19 @@ func RunC15(env *sim.Env) {
 		case "import":
 			execute(fmt.Sprintf(`{{import %q}}{{yield lb()}}`, name), nil)
 		case "include":
+			if t.Choose(3) == 2 && refDir != "/" {
+				// two references from one referrer: a "../" form first (which must not change what the
+				// referrer's directory is for the second)
+				up := "../" + strings.TrimPrefix(c15Targets[0], "/") // "../t.jet": one level above the referrer
+				upTarget := Normalize(refDir + "/" + up)
+				for _, e := range c.exts {
+					c.allowed[upTarget+e] = true
+				}
+				c.allowed[upTarget] = true
+				execute(fmt.Sprintf(`{{try}}{{include %q}}{{catch}}{{end}}[{{include %q}}]`, up, name), nil)
+				env.Stat("probe:two_references_from_one_referrer", 1)
+				break
+			}
 			execute(fmt.Sprintf(`[{{include %q}}]`, name), nil)
 		case "include-computed":
 			execute(`[{{include dir + nm}}]`, jet.VarMap{}.Set("dir", "").Set("nm", name))
